@@ -6,7 +6,7 @@ CONFIG = dict(
          "(wrong/short/long content, source failures), readers held open, existence checks, composite reads with a gated slicer; non-trivial = a successful read plus at least one of: "
          "two operations in flight, a composite read, an eviction observed; distinct = distinct input",
     modelled=["the key-location index is abstracted to 'newest valid stored location per key' (C06 proves the refinement absent reported discards; the harness uses a 9973-entry table)",
-              "sector-level device writes of the block-device allocator are not modelled here (block contents are byte arrays written per upload chunk)",
+              "sector-level device writes of the block-device allocator are not modelled here (block contents are byte arrays written per upload chunk); the model predicts only WHETHER a Get / FindMissing step writes (Run/R05.v wrote), compared with the device write counter on every such step except those touching an empty object",
               "SHA-256 as identity of content (an upload is valid iff its bytes equal the object's canonical content)",
               "schedules at the granularity of lock-protected sections / upload chunks / slicer hand-off; Go sync primitives trusted"],
 )
